@@ -720,8 +720,23 @@ class WassersteinCase(Case):
             vecs.append(np.ascontiguousarray(self.vectors[idx].copy()))
         return dists, vecs
 
-    def build(self, ids, for_fit=False, reader_fault=None, reader_stats=None, invalid_at=None, invalid_kind=None):
+    def _vectors(self, alt):
+        v = self.vectors.copy()
+        if alt:
+            # same shape, different contents: a second vector table for the same fitted model
+            v[0, 0] += 0.5
+            v[-1, -1] -= 0.25
+        return v
+
+    def build(self, ids, for_fit=False, reader_fault=None, reader_stats=None, invalid_at=None, invalid_kind=None, alt_vectors=False):
         ids = list(ids)
+        if alt_vectors:
+            saved = self.vectors
+            self.vectors = self._vectors(True)
+            try:
+                return self.build(ids, for_fit, reader_fault, reader_stats, invalid_at, invalid_kind, False)
+            finally:
+                self.vectors = saved
         if self.input_method == "spmatrix":
             m = self.base[ids].tocsr().copy()
             if invalid_at is not None and len(ids) > 0:
